@@ -24,8 +24,8 @@ def _known_discr(d):
     return None
 
 
-def paths_with_constraints(a, limit=4096):
-    """-> [(constraints, ret_term, ret_site)]; constraints: {atom_term: frozenset(allowed ints) | ('not', frozenset)}"""
+def paths_with_constraints(a, limit=4096, with_path=False):
+    """-> [(constraints, ret_term, ret_site)] (+ the block path with with_path); constraints: {atom_term: frozenset(allowed ints) | ('not', frozenset)}"""
     cfg = a.cfg
     if cfg.back_edges():
         raise Undecidable('loop in ' + a.body.key)
@@ -45,7 +45,7 @@ def paths_with_constraints(a, limit=4096):
         if t['k'] == 'return':
             pa = PathAn(a, path)
             rt = pa.ret_val()
-            out.append((cons, rt, last0))
+            out.append((cons, rt, last0, path) if with_path else (cons, rt, last0))
             if len(out) > limit:
                 raise Undecidable('too many paths')
             continue
